@@ -889,7 +889,8 @@ def check_costs(tr, project, prop="C07"):
             tr.violate(prop, "C07/cost-log-length", "%s has %d entries, organization has %d" % (g.ID, len(g.cost_list), len(org.cost_list)))
     if len(project.cost_list) != len(org.cost_list) or any(abs(a - b) > TOL for a, b in zip(project.cost_list, org.cost_list)):
         tr.violate(prop, "C07/project-differs-from-organization", "project cost list %r != organization %r" % (project.cost_list[:8], org.cost_list[:8]))
-    if abs(sum(project.cost_list) - total_expected) > 1e-7:
+    # (floating-point sums in two different orders: the tolerance grows with the size of the total)
+    if abs(sum(project.cost_list) - total_expected) > 1e-7 + 1e-10 * abs(total_expected):
         tr.violate(prop, "C07/total", "total project cost %r != sum of rate x WORKING steps %r" % (sum(project.cost_list), total_expected))
     tr.counters["C07.total_checks"] += 1
 
